@@ -139,12 +139,22 @@ def materialise(case, d, exe):
 def run_case(case, d, exe):
     stub, argv, env = materialise(case, d, exe)
     t0 = time.time()
-    try:
-        p = subprocess.run(argv, capture_output=True, env=env, timeout=case.get('timeout', TIMEOUT), cwd=d)
-        rc, out, err = p.returncode, p.stdout.decode('latin-1'), p.stderr.decode('latin-1')
-    except subprocess.TimeoutExpired:
-        rc, out, err = 'timeout', '', ''
-    r = {'rc': rc, 'out': out, 'err': err, 'wall': time.time() - t0, 'sol': None, 'sol_special': None, 'log': '',
+    retried = False
+    while True:
+        try:
+            p = subprocess.run(argv, capture_output=True, env=env, timeout=case.get('timeout', TIMEOUT), cwd=d)
+            rc, out, err = p.returncode, p.stdout.decode('latin-1'), p.stderr.decode('latin-1')
+        except subprocess.TimeoutExpired:
+            rc, out, err = 'timeout', '', ''
+            if not retried and 'timeout' not in case:
+                # a hang of the driver is deterministic and shows again; a stall of the (shared, loaded) machine does not:
+                # the run is repeated once from the same files before it is reported as a hang
+                retried = True
+                if os.path.isfile(stub + '.reclog'):
+                    os.remove(stub + '.reclog')          # (<stub>.sol is opened "wb" by the driver; its prepared state is kept)
+                continue
+        break
+    r = {'rc': rc, 'out': out, 'err': err, 'wall': time.time() - t0, 'retried_after_timeout': retried, 'sol': None, 'sol_special': None, 'log': '',
          'cmdline': ' '.join(argv), 'env': {k: v for k, v in env.items() if k.endswith('_options') or k.startswith('RECSOLVER_')}}
     sp = stub + '.sol'
     if os.path.islink(sp) or os.path.isdir(sp):
@@ -1579,6 +1589,9 @@ def run(ck):
     with ThreadPoolExecutor(max_workers=6) as ex:
         results = list(ex.map(one, cases))
     ck.log('ran %d processes in %.1fs (max single %.2fs)' % (len(cases), time.time() - t0, max(r['wall'] for r in results)))
+    n_retried = sum(1 for r in results if r.get('retried_after_timeout') and r['rc'] != 'timeout')
+    if n_retried:
+        ck.notes.append('%d run(s) exceeded the %d s limit once and completed normally when repeated (machine stall, not a hang of the driver)' % (n_retried, TIMEOUT))
 
     lines, evals = [], []
     for c, r in zip(cases, results):
